@@ -384,6 +384,10 @@ impl DB {
         } else {
             db_fields_guard.version_set.get_prev_sequence_number()
         };
+        // The memtable must be captured together with the immutable memtable and the version while
+        // the lock is held. Otherwise a memtable rotation and flush that complete in between leave
+        // a hole in the view this read operates on.
+        let memtable = self.memtable();
         let maybe_immutable_memtable = db_fields_guard.maybe_immutable_memtable.clone();
         let current_version = db_fields_guard.version_set.get_current_version();
 
@@ -397,7 +401,7 @@ impl DB {
                 let internal_key = InternalKey::new_for_seeking(key.to_vec(), snapshot);
 
                 // Check the memtable first
-                if let Ok(maybe_value) = self.memtable().get(&internal_key) {
+                if let Ok(maybe_value) = memtable.get(&internal_key) {
                     match maybe_value {
                         Some(value) => return Ok(Some(value.clone())),
                         None => {
